@@ -75,7 +75,13 @@ pub fn run(ctx: &mut Ctx) {
             c.push("E encode".into());
             let enc_idx = c.lines.len() - 1;
             if reuse {
-                let prev = Cfg { sb: *ctx.rng.pick(&others), ..cfg.clone() };
+                // the decoder held the same number of blocks per shard before — and, half of the time, a LARGER
+                // configuration (more work positions, a longer received-bitmap) than the one it is reset to
+                let mut prev = Cfg { sb: *ctx.rng.pick(&others), ..cfg.clone() };
+                if ctx.rng.chance(1, 2) {
+                    let big = gen_cfg(&mut ctx.rng, mw * 4, &[cfg.kind.as_str()], &[cfg.engine.as_str()], &[prev.sb]);
+                    if dec_work(&big.kind, big.k, big.r) > dec_work(&cfg.kind, cfg.k, cfg.r) { prev = big; ctx.count("object", "decoder-reset-from-larger"); }
+                }
                 c.push(prev.new_line("D"));
                 c.push(format!("D reset {} {} {}", cfg.k, cfg.r, sb));
             } else {
